@@ -138,6 +138,11 @@ func runC20(rc *RunCtx) {
 				case 0:
 					db.Errs[key] = true
 					c.want = []string{"XD"}
+					if G.Draw(2) == 0 {
+						// partial failure: the country lookup worked, the ASN lookup failed
+						db.Answers[key] = ipinfo.IPInfo{CountryCode: "BR"}
+						simrt.Probe("database_partial_failure")
+					}
 				case 1:
 					c.want = []string{"ZZ"} // no country in the database
 				default:
@@ -384,6 +389,10 @@ func runC20s(rc *RunCtx) {
 			case 0:
 				db.Errs[key] = true
 				c.want = []string{"XD"}
+				if G.Draw(2) == 0 {
+					db.Answers[key] = ipinfo.IPInfo{CountryCode: "BR"}
+					simrt.Probe("database_partial_failure")
+				}
 			case 1:
 				c.want = []string{"ZZ"}
 			default:
